@@ -59,4 +59,18 @@ pub fn run(ctx: &Ctx) {
         }
         Some((case, feats >= 4 && nesting))
     });
+    if ctx.tier == Tier::Thorough && crate::backend::worker_available() && !ctx.stopped() {
+        // Coverage-guided structured fuzzing with the same decoder and the
+        // same differential asserted in-target.
+        if crate::fuzzdrive::build(ctx) {
+            let r = crate::fuzzdrive::campaign(ctx, "differential", 12, 10, ctx.n(1, 40_000), 1400, &[]);
+            ctx.label_n("libFuzzer executions (differential target)", r.executions);
+            for bytes in r.crashes {
+                let mut t = Tape::from_bytes(&bytes);
+                if let Some((case, _, _, _)) = build_case("C01", "libfuzzer", &mut t, &cfg, 0, ctx, DiagLevel::None) {
+                    ctx.judge(&case, true, Via::Cli, None);
+                }
+            }
+        }
+    }
 }
